@@ -49,7 +49,8 @@ def decAcct (j : Json) : Except String Acct := do
 def decTheirRpc (j : Json) : Except String TheirRpc := do
   pure { nonce := ← gS j "nonce", auctionType := ← gN j "auctionType", duration := ← gN j "duration",
          rate := ← gN j "rate", selfChanBalance := ← gN j "selfChanBalance", chanType := ← gI j "chanType",
-         nodeKey := ← gS j "nodeKey", multiSigKey := ← gS j "multiSigKey", unitsFilled := ← gN j "unitsFilled" }
+         nodeKey := ← gS j "nodeKey", multiSigKey := ← gS j "multiSigKey", unitsFilled := ← gN j "unitsFilled",
+         version := (j.getObjValAs? Nat "version").toOption.getD 6 }
 
 def decMatchedRpc (j : Json) : Except String MatchedRpc := do
   pure { nonce := ← gS j "nonce", asks := ← (← gL j "asks").mapM decTheirRpc,
